@@ -107,6 +107,7 @@ def hints_phase(c, tier, cases_path=None, corrupt=0):
         vlib.log('[mc] MC_Hints/%s: %d distinct states, %.1fs' % (cfg, r.distinct, r.wall))
     vlib.tlc_expect_violation("MC_Hints", cfg="MC_Hints_nv", workers=4)
     vlib.tlc_expect_violation("MC_Hints", cfg="MC_Hints_expr_nv", workers=4)
+    vlib.tlc_expect_violation("MC_Hints", cfg="MC_Hints_r21", workers=4)      # the date-range hint of the tree before R21 is refuted
     t0 = time.time()
     n, procs = (400, 8) if tier == "quick" else (12000, 16)
     sample = None
